@@ -27,10 +27,10 @@ Print Assumptions C16_unique_keys_unique_refuted.
    councilor and validator claims / guarded key-list changes / rotations, all key spellings) in
    which every WHOLE-RECORD write of the network properties satisfies the same guard as the
    single-property path ([guarded]), unique keys stay unique and stored keys stay case-folded. *)
-Theorem C16_unique_keys_unique_partial :
+Theorem C16_unique_keys_unique_old_variant_guarded :
   forall ops s, KU s -> guarded s ops -> KU (run s ops).
 Proof. exact run_KU. Qed.
-Print Assumptions C16_unique_keys_unique_partial.
+Print Assumptions C16_unique_keys_unique_old_variant_guarded.
 
 (* the single-step form, for any operation: the uniqueness check on every write preserves it *)
 Theorem C16_unique_step :
@@ -78,6 +78,14 @@ Theorem C16_tip_refunded_on_cancel :
 Proof. exact cancel_refunds_requester. Qed.
 Print Assumptions C16_tip_refunded_on_cancel.
 
+(* the escrow always covers every pending tip: handling or cancelling a pending request can never
+   fail for lack of funds in the module account, after any history *)
+Theorem C16_escrow_always_sufficient :
+  forall base ops s, QE base s -> TN s -> (forall d, 0 <= base d) ->
+  forall q to, In q (reqs (run s ops)) -> is_ok (payout (run s ops) q to) = true.
+Proof. exact escrow_always_sufficient. Qed.
+Print Assumptions C16_escrow_always_sufficient.
+
 (* exactly once: a request id that has left the pending set never comes back, whatever follows *)
 Theorem C16_tip_paid_once :
   forall qid ops s, gone qid s -> gone qid (run s ops).
@@ -95,7 +103,8 @@ Print Assumptions C16_moniker_unique.
 (* ---------------------------------------------------------------- only owners edit *)
 (* FULL STRENGTH for the tree as it is (del_fix = true), over all histories whose rotations go to
    addresses holding no identity records yet ([rot_guarded]; such a target has no account -- checked
-   by the code -- and so never signed anything): every operation leaves the records of all
+   by the code -- and so never signed anything), for BOTH rotation entry points (secret and RR-token
+   holder) and with genesis round trips in between: every operation leaves the records of all
    addresses other than its signer untouched, a rotation moves the records unchanged. *)
 Theorem C16_only_owner_edits :
   forall ops s o s', W s -> del_fix s = true -> rot_guarded s (ops ++ [o]) ->
@@ -109,6 +118,13 @@ Theorem C16_wellformed_histories :
   forall ops s, W s -> del_fix s = true -> rot_guarded s ops -> W (run s ops) /\ del_fix (run s ops) = true.
 Proof. exact run_W. Qed.
 Print Assumptions C16_wellformed_histories.
+
+(* the side condition [rot_guarded] cannot be dropped: a rotation into an address that already holds a
+   record under the same key leaves that record un-indexed (the invariant fails) *)
+Theorem C16_rotation_guard_needed :
+  exists s ops, W s /\ del_fix s = true /\ ~ rot_guarded s ops /\ ~ W (run s ops).
+Proof. exists sg, w_guard. exact rot_guard_needed. Qed.
+Print Assumptions C16_rotation_guard_needed.
 
 (* ---------------------------------------------------------------- an edit drops verifications and cancels requests *)
 (* FULL STRENGTH, same histories: whenever an operation changes the value of a record or deletes it,
@@ -137,21 +153,21 @@ Print Assumptions C16_edit_drops_verifications_and_cancels_refuted.
 (* What holds of "changing a record drops its verifications", for every operation except an approving
    handle and a rotation: every record of the new state is literally a record of the old state or
    was written in this transaction with an EMPTY verifier list. *)
-Theorem C16_edit_drops_verifications_partial :
+Theorem C16_written_records_have_no_verifications :
   forall s o s', approving o = false -> step s o = Ok s' ->
   forall r', In r' (recs s') -> In r' (recs s) \/ r_ver r' = [].
 Proof. exact written_records_unverified. Qed.
-Print Assumptions C16_edit_drops_verifications_partial.
+Print Assumptions C16_written_records_have_no_verifications.
 
 (* What holds of "only owners edit", locally: a record write whose id is unused or used only by the
    writer's own records creates, changes and deletes nothing of any other address.  (The stale
    index left by a rotation is exactly what breaks the premise.) *)
-Theorem C16_only_owner_edits_partial :
+Theorem C16_record_write_frame :
   forall s r s', set_record s r = Ok s' ->
   (forall x, In x (recs s) -> r_id x = r_id r -> r_owner x = r_owner r) ->
   others_untouched (r_owner r) s s'.
 Proof. exact set_record_owner_frame. Qed.
-Print Assumptions C16_only_owner_edits_partial.
+Print Assumptions C16_record_write_frame.
 
 (* ---------------------------------------------------------------- the spec checker accepts the model *)
 Theorem C16_chk_sound_escrow :
@@ -165,7 +181,7 @@ Proof. exact chk_sound_unique. Qed.
 Print Assumptions C16_chk_sound_unique.
 
 (* ---------------------------------------------------------------- non-vacuity *)
-Definition s1 : state := init_state "moniker,username" 0 [0] [1] [6] [0; 1; 2; 3] [0; 1; 2; 3] bal0 true true.
+Definition s1 : state := init_state "moniker,username" 0 [0] [1] [6] [0; 1; 2; 3] [0; 1; 2; 3] bal0 true true [].
 Example C16_nonvacuous_wellformed : W s1 /\ del_fix s1 = true /\ msg_guard s1 = true /\ KU s1 /\ MK s1 /\ LU s1.
 Proof.
   split; [apply W_init|split; [reflexivity|split; [reflexivity|split; [split; intros r; simpl; tauto|split; vm_compute; reflexivity]]]].
